@@ -64,6 +64,15 @@ def correspondence(ctx):
             reqs.append("rd.rsub %s %s" % (w, t)); exp.append(L.run(lambda: x - d, L.t_show))
         if i % 5 == 0:
             reqs.append("rd.add %s %s" % (w, t)); exp.append(L.run(lambda: d + x, L.t_show))
+    # the constructor's yearday / nlyearday conversion (used by yearday_spec_partial, nlyearday_spec, yearday366_defect)
+    reqs.append("rd.ydayidx"); exp.append("ok " + L.vlib.ilist(L.source_ydayidx() or []))
+    for key in ("yearday", "nlyearday"):
+        for v in list(range(-2, 370)) + [400, 10 ** 6]:
+            kw = {key: v}
+            if rng.random() < 0.3:
+                kw["days"] = rng.randint(-40, 40)
+            reqs.append("rd.mk " + L.kw_wire(kw)); exp.append(L.run(lambda: L.mkrd(kw), L.rd_wire))
+            ctx.count("corr_mk_yearday")
     got = ctx.driver(reqs)
     for q, e, g in zip(reqs, exp, got):
         if e != g:
@@ -172,6 +181,24 @@ def oracle(ctx):
         except (ValueError, IndexError):
             continue
         pairs.append((kw, L.g_temporal(rng)))
+    # deltas whose ONLY time information is one field (relative or absolute, incl. absolute 0), mostly on date operands:
+    # the promotion clause must see each source of `_has_time` on its own
+    for _ in range(ctx.budget(1500, 20000)):
+        fld = rng.choice(["hours", "minutes", "seconds", "microseconds", "hour", "minute", "second", "microsecond"])
+        if fld.endswith("s"):
+            val = rng.choice([1, -1, 5, -7, 250000 if fld == "microseconds" else 3])
+        else:
+            val = rng.choice([0, 0, 1, {"hour": 23, "minute": 59, "second": 59, "microsecond": 999999}[fld]])
+        kw = {fld: val}
+        if rng.random() < 0.5:
+            kw.update({k: v for k, v in L.g_kw(rng, "c03").items()
+                       if k in ("years", "months", "days", "weeks", "year", "month", "day", "weekday", "leapdays")})
+        try:
+            L.mkrd(kw)
+        except (ValueError, IndexError):
+            continue
+        pairs.append((kw, L.g_temporal(rng, ("d", "d", "n"))))
+        ctx.count("single_time_source_" + fld)
     reqs = ["rd.spec %s %s" % (L.rd_wire(L.mkrd(kw)), L.t_wire(x)) for kw, x in pairs]
     spec = ctx.driver(reqs)
     for (kw, x), s in zip(pairs, spec):
@@ -206,7 +233,7 @@ def oracle(ctx):
             e = datetime.date(y, 1, 1) + datetime.timedelta(days=nday - 1)
             if res != "ok " + L.t_wire(e):
                 ctx.violation("yearday=%d in %d gives %s, day %d of that year is %s" % (nday, y, res, nday, e),
-                              {"law": "yearday", "year": y, "yearday": nday, "leap": leap, "x": L.t_wire(x)})
+                              {"law": "yearday", "year": y, "yearday": nday, "leap": leap, "x": L.t_wire(x), "res": res})
         for nday in range(1, 366):
             ctx.case(("nlyearday", y, nday)); ctx.count("nlyearday_cases")
             res = L.run(lambda: x + relativedelta(nlyearday=nday), L.t_wire)
@@ -233,8 +260,9 @@ def fields_to_kw(tok):
 
 KNOWN = {
     # yearday=366 in a leap year: the day is clipped to Dec 31 *before* leapdays=-1 is applied -> Dec 30
+    # tight: the class AND the observed result is exactly the one the model proves (C03.yearday366_defect: day 365 = Dec 30)
     "D-C03-yearday366": lambda v: v["case"].get("law") == "yearday" and v["case"].get("yearday") == 366
-    and bool(v["case"].get("leap")),
+    and bool(v["case"].get("leap")) and v["case"].get("res") == "ok d %d 12 30 0 0 0 0" % v["case"].get("year"),
 }
 
 
